@@ -32,6 +32,36 @@ pub struct BindNode { _p: u8 }
 pub uninterp spec fn walk_originals(oc: &NodeRef, op: &NodeRef) -> bool;
 
 pub struct AdjustHeightsHeap { pub height_lower_bound: i32 }
+pub uninterp spec fn node_height(n: &Node) -> i32;
+pub uninterp spec fn node_in_heap(n: &Node) -> bool;
+pub uninterp spec fn node_never_computed(n: &Node) -> bool;
+pub uninterp spec fn edge_stale(child: &Node, parent: &Node) -> bool;
+pub uninterp spec fn node_necessary(n: &Node) -> bool;
+#[verifier::external_body]
+pub struct HeapHandle { _p: u8 }
+impl HeapHandle {
+    /// RecomputeHeap::insert: the membership part of its debug assertion
+    #[verifier::external_body]
+    pub fn insert(&self, node: NodeRef) requires !node_in_heap(&*node) && node_necessary(&*node) { unimplemented!() }
+    #[verifier::external_body]
+    pub fn insert__reached(&self, node: NodeRef) requires !node_in_heap(&*node) && node_necessary(&*node) ensures false { unimplemented!() }
+}
+pub struct StampV { pub never: bool }
+impl StampV {
+    #[verifier::external_body]
+    pub fn is_never(&self) -> (r: bool) ensures r == self.never { unimplemented!() }
+}
+pub struct StampCell { pub v: StampV }
+impl StampCell {
+    #[verifier::external_body]
+    pub fn get(&self) -> (r: &StampV) ensures r == &self.v { unimplemented!() }
+}
+/// the engine state as far as state_add_parent touches it (R5 on adjust_heights_heap; recompute_heap shared)
+pub struct State { pub adjust_heights_heap: AdjustHeightsHeap, pub recompute_heap: RecomputeHeap, pub heap: HeapHandle }
+impl State {
+    #[verifier::external_body]
+    pub fn propagate_invalidity(&self) { unimplemented!() }
+}
 impl AdjustHeightsHeap {
     #[verifier::external_body]
     fn is_empty(&self) -> bool { unimplemented!() }
@@ -46,13 +76,23 @@ impl AdjustHeightsHeap {
 
 impl Node {
     #[verifier::external_body]
-    fn height(&self) -> i32 { unimplemented!() }
+    fn height(&self) -> (r: i32) ensures r == node_height(self) { unimplemented!() }
     #[verifier::external_body]
-    fn is_in_recompute_heap(&self) -> bool { unimplemented!() }
+    fn is_in_recompute_heap(&self) -> (r: bool) ensures r == node_in_heap(self) { unimplemented!() }
     #[verifier::external_body]
-    fn is_necessary(&self) -> bool { unimplemented!() }
+    fn is_necessary(&self) -> (r: bool) ensures r == node_necessary(self) { unimplemented!() }
     #[verifier::external_body]
-    fn packed(&self) -> NodeRef { unimplemented!() }
+    fn packed(&self) -> (r: NodeRef) ensures *r == *self { unimplemented!() }
+    #[verifier::external_body]
+    fn erased(&self) -> (r: &Node) ensures r == self { unimplemented!() }
+    #[verifier::external_body]
+    fn recomputed_at(&self) -> (r: &StampCell) ensures r.v.never == node_never_computed(self) { unimplemented!() }
+    #[verifier::external_body]
+    fn edge_is_stale(&self, parent: &Node) -> (r: bool) ensures r == edge_stale(self, parent) { unimplemented!() }
+    #[verifier::external_body]
+    fn add_parent_without_adjusting_heights(&self, child_index: i32, parent_ref: &Node, state: &State) { unimplemented!() }
+    #[verifier::external_body]
+    fn kind_debug_ty(&self) -> u64 { unimplemented!() }
     #[verifier::external_body]
     fn parents(&self) -> (r: &Vec<WeakNode>) { unimplemented!() }
     #[verifier::external_body]
@@ -109,6 +149,52 @@ impl AdjustHeightsHeap {
 //@|     //  debug assertions of this function are graph facts that are not decided here)
 //@ loop 0:
 //@|     invariant forall|a: &NodeRef, b: &NodeRef| walk_originals(a, b) <==> (*a == original_child && *b == original_parent),
+//@end
+}
+
+
+// ---- Node::state_add_parent (src/node.rs): linking a child under a necessary parent restores heights first and
+//      queues the parent only when it is owed a recompute.  R5p: `state` is `&mut` with adjust_heights_heap erased. ----
+impl Node {
+//@extract fn Node::state_add_parent
+//@ file: src/node.rs
+//@ impl: impl ErasedNode for Node
+//@ name: state_add_parent
+//@ as: fn state_add_parent(&self, child_index: i32, parent_ref: &Node, state: &mut State)
+//@ tracing: yes
+//@ cells@state: adjust_heights_heap
+//@ rule R5: `self.add_parent_without_adjusting_heights(child_index, parent_ref, state);` => `self.add_parent_without_adjusting_heights(child_index, parent_ref, &*state);` x1
+//@ rule R5: `let rch = &state.recompute_heap;` => `` x1
+//@ rule R5: `ah_heap.adjust_heights(rch, ` => `ah_heap.adjust_heights(&state.recompute_heap, ` x1
+//@ rule R8: `state.recompute_heap.insert(` => `state.heap.insert(` x*
+//@ props: C19 C05
+//@ contract:
+//@|     requires
+//@|         node_necessary(parent_ref),
+//@|         // the height walk may only be started from this very edge (child = self, parent = parent_ref):
+//@|         forall|a: &NodeRef, b: &NodeRef| walk_originals(a, b) <==> (**a == *self && **b == *parent_ref),
+//@|     // [heights-are-restored-from-the-new-edge-and-the-parent-is-queued-only-if-not-already-and-owed-a-recompute]
+//@end
+
+//@extract fn Node::state_add_parent!must_queue
+//@ file: src/node.rs
+//@ impl: impl ErasedNode for Node
+//@ name: state_add_parent
+//@ as: fn state_add_parent__a_parent_that_never_ran_or_missed_this_childs_change_is_queued(&self, child_index: i32, parent_ref: &Node, state: &mut State)
+//@ tracing: yes
+//@ panics: diverge
+//@ cells@state: adjust_heights_heap
+//@ rule R5: `self.add_parent_without_adjusting_heights(child_index, parent_ref, state);` => `self.add_parent_without_adjusting_heights(child_index, parent_ref, &*state);` x1
+//@ rule R5: `let rch = &state.recompute_heap;` => `` x1
+//@ rule R5: `ah_heap.adjust_heights(rch, ` => `ah_heap.adjust_heights(&state.recompute_heap, ` x1
+//@ rule R8: `state.recompute_heap.insert(` => `state.heap.insert__reached(` x*
+//@ props: C05 C06
+//@ contract:
+//@|     requires
+//@|         node_necessary(parent_ref),
+//@|         forall|a: &NodeRef, b: &NodeRef| walk_originals(a, b) <==> (**a == *self && **b == *parent_ref),
+//@|         !node_in_heap(parent_ref), node_never_computed(parent_ref) || edge_stale(self, parent_ref),
+//@|     ensures false, // [a-newly-linked-parent-that-never-ran-or-missed-a-change-of-this-child-is-always-queued]
 //@end
 }
 
